@@ -16,18 +16,20 @@ import (
 	"verif/internal/ev"
 	"verif/internal/memfs"
 	"verif/internal/quiesce"
+	"verif/internal/wire"
 	"verif/internal/xport"
 )
 
 func init() {
 	ev.Register(&ev.Spec{
 		ID: "C16", Level: "exploration",
-		Rule: "G in {2,4,16,64} goroutines drive real clients over K in {1,2,4,8} connections (net.Pipe and AF_UNIX socket pairs) to one server over memfs with seeded scheduling perturbation at every backend enter/exit, one request outstanding per fid, under the Go race detector (both tiers): (i) disjoint subtrees - each goroutine runs a seeded script (create/write/read/mkdir/walk/clone/readdir/getattr/setattr/renameat same and cross directory/rename/unlinkat/remove/clunk) inside /gN and its step-by-step results (errnos, data, names, sizes, object identities canonicalised by first appearance) must equal those of the same script run alone on a fresh server; (ii) shared directory - cross- and same-directory renames, unlinks of entries other clients hold, clones, creates on few names: completion and race-freedom, with the C07 overlap monitor on. Every request must be answered: a wait that ends with the process parked is a deadlock (witness: dump), one that ends with library goroutines spinning a livelock. Non-trivial: >= 2 requests were inside the backend simultaneously (measured); distinct by workload shape and enter-order signature.",
-		Assume:  []string{"race reports with a frame under /repo are violations; reports entirely in harness code break the check", "memfs is linearizable by its own mutex"},
-		Shards:  shards(8, 16),
-		Race:    raceIn("quick", "thorough"),
-		Timeout: timeout(10*time.Minute, 90*time.Minute),
-		Run:     runC16,
+		Rule:            "G in {2,4,16,64} goroutines drive real clients over K in {1,2,4,8} connections (net.Pipe and AF_UNIX socket pairs) to one server over memfs with seeded scheduling perturbation at every backend enter/exit, one request outstanding per fid, under the Go race detector (both tiers): (i) disjoint subtrees - each goroutine runs a seeded script (create/write/read/mkdir/walk/clone/readdir/getattr/setattr/renameat same and cross directory/rename/unlinkat/remove/clunk) inside /gN and its step-by-step results (errnos, data, names, sizes, object identities canonicalised by first appearance) must equal those of the same script run alone on a fresh server; (ii) shared directory - cross- and same-directory renames, unlinks of entries other clients hold, clones, creates on few names: completion and race-freedom, with the C07 overlap monitor on. Every request must be answered: a wait that ends with the process parked is a deadlock (witness: dump), one that ends with library goroutines spinning a livelock. Non-trivial: >= 2 requests were inside the backend simultaneously (measured); distinct by workload shape and enter-order signature.",
+		Assume:          []string{"race reports with a frame under /repo are violations; reports entirely in harness code break the check", "memfs is linearizable by its own mutex"},
+		Shards:          shards(8, 16),
+		Race:            raceIn("quick", "thorough"),
+		RaceIsViolation: true,
+		Timeout:         timeout(10*time.Minute, 90*time.Minute),
+		Run:             runC16,
 	})
 }
 
@@ -288,7 +290,94 @@ func (cn *c16conn) close() (quiesce.Outcome, []quiesce.G) {
 	return o, d
 }
 
+// c16Renegotiate: Tversion may be sent again in mid-session. It names no fid,
+// so a client that keeps one request outstanding per fid may have it in flight
+// together with reads - and even a strictly sequential client makes the
+// server's per-connection buffers change hands between a reply's last byte and
+// that reply's clean-up. Race detector on; the replies must stay intact.
+func c16Renegotiate(c *ev.Ctx) {
+	rounds := c.Sz(6, 120)
+	for round := 0; round < rounds; round++ {
+		if !c.Mine(round) {
+			continue
+		}
+		hungFlag = false
+		c.Begin(fmt.Sprintf("C16 renegotiate %d", round))
+		fs := memfs.New()
+		n := fs.MkPath("/s", p9.ModeRegular|0644, "")
+		n.Synth, n.SynthSz = true, 1<<20
+		srv := p9.NewServer(fs)
+		s, vr := newSess(srv, 1<<16, v7)
+		ok := vr.OK && s.attach(0, "").Errno() == 0 && s.walk(0, 1, "s").Errno() == 0 && s.open(1, 0).Errno() == 0 && s.walk(0, 2, "s").Errno() == 0 && s.open(2, 0).Errno() == 0
+		if !ok {
+			c.Inconclusive("C16 renegotiate setup")
+			s.P.Close()
+			continue
+		}
+		bad := func(what string, det map[string]any) {
+			c.Violation("C16:renegotiate:"+what, det)
+		}
+		sizes := []uint32{1 << 16, 1 << 15, 1 << 17, 8192}
+		for i := 0; i < c.Sz(200, 800); i++ {
+			ms := sizes[i%4]
+			if round%2 == 0 {
+				// strictly sequential
+				r := s.read(1, uint64(i), 3000)
+				if !r.OK {
+					hang(c, r.Out, r.Dump, "C16:renegotiate:read-unanswered", nil)
+					break
+				}
+				if r.Msg.Type == wire.Rread {
+					for k, b := range r.Msg.F[0].([]byte) {
+						if b != memfs.SynthByte(n.ID, uint64(i)+uint64(k)) {
+							bad("read-reply-damaged", map[string]any{"at": k})
+							break
+						}
+					}
+				}
+				if v := s.P.Version(ms, v7); !v.OK {
+					hang(c, v.Out, v.Dump, "C16:renegotiate:Tversion-unanswered", nil)
+					break
+				}
+			} else {
+				// Tversion in flight together with reads on two fids
+				from := s.P.NReplies()
+				s.P.Send(wire.Tread, 900, u(1), u(uint64(i)), u(3000))
+				s.P.Send(wire.Tversion, 901, u(uint64(ms)), v7)
+				s.P.Send(wire.Tread, 902, u(2), u(uint64(i)), u(2000))
+				dead := false
+				for _, tag := range []uint16{900, 901, 902} {
+					r, got, o, d := s.P.WaitTag(tag, from)
+					if !got {
+						hang(c, o, d, "C16:renegotiate:request-unanswered", tag)
+						dead = true
+						break
+					}
+					if r.Msg.Type == wire.Rread {
+						for k, b := range r.Msg.F[0].([]byte) {
+							if b != memfs.SynthByte(n.ID, uint64(i)+uint64(k)) {
+								bad("read-reply-damaged", map[string]any{"at": k, "tag": tag})
+								break
+							}
+						}
+					}
+				}
+				if dead {
+					break
+				}
+			}
+		}
+		s.P.Monitor()
+		if o, d := s.P.Close(); o != quiesce.CondMet {
+			hang(c, o, d, "C16:renegotiate:Handle-does-not-return", nil)
+		}
+		c.Case(fmt.Sprintf("renegotiate:%d", round%2), true)
+		c.Count("renegotiations", int64(c.Sz(200, 800)))
+	}
+}
+
 func runC16(c *ev.Ctx) {
+	c16Renegotiate(c)
 	r := c.Rand("c16")
 	shapes := []struct{ G, K int }{{2, 1}, {2, 2}, {4, 1}, {4, 4}, {16, 2}, {16, 8}, {64, 4}, {64, 8}, {4, 2}, {16, 1}}
 	rounds := c.Sz(8, 80)
